@@ -67,10 +67,8 @@ RunPlan(st0, plan, rd, mode) ==
               st |-> [acc.st EXCEPT !.pool = c.pool, !.mpi = c.mpi, !.half = s.pend],
               bytes |-> acc.bytes \o SubSeq(ToBytesLE(word), 1, s.take)],
      [ok |-> TRUE, off |-> 0, dis |-> FALSE, st |-> st0, bytes |-> <<>>], plan)
-(* deterministic in the mod-2^32 reading of the stuck test; if the two readings disagree       *)
-(* anywhere in the call, the whole call is also tried in the integer reading                    *)
-Outcomes(st0, plan, rd) ==
-  LET w == RunPlan(st0, plan, rd, "W") IN IF w.dis THEN {w, RunPlan(st0, plan, rd, "Z")} ELSE {w}
+(* deterministic: the stuck test takes its differences mod 2^32 (see Jitter.tla) *)
+Outcomes(st0, plan, rd) == {RunPlan(st0, plan, rd, "W")}
 
 Output(plan, retOf(_)) ==
   /\ NoPanic /\ Ev.g \in DOMAIN jit
@@ -147,6 +145,8 @@ TrSetPool ==
 TrStir ==
   /\ IsEvent("stir") /\ NoPanic /\ Ev.g \in DOMAIN jit
   /\ LET st == [jit[Ev.g] EXCEPT !.pool = Stir(@)] IN ObsOk(st) /\ jit' = [jit EXCEPT ![Ev.g] = st]
+(* harness-only: the scripted timer's cursor is re-seated; the generator is not touched *)
+TrSeek == IsEvent("seek") /\ NoPanic /\ Ev.g \in DOMAIN jit /\ ObsOk(jit[Ev.g]) /\ UNCHANGED jit
 TrDebug == IsEvent("debug") /\ NoPanic /\ UNCHANGED jit
 TrDrop == IsEvent("drop") /\ UNCHANGED jit
 (* JitterRng::new() with the platform timer: a smoke run; only "did not panic" is specified *)
@@ -154,7 +154,7 @@ TrStdNew == IsEvent("jit_std_new") /\ NoPanic /\ UNCHANGED jit
 
 Init == l = 1 /\ jit = <<>>
 Next == \/ TrReset \/ TrTimer \/ TrNew \/ TrSetRounds \/ TrNextU64 \/ TrNextU32 \/ TrFill \/ TrTimerStats
-        \/ TrTestTimer \/ TrClone \/ TrCloneFrom \/ TrSetPool \/ TrStir \/ TrDebug \/ TrDrop \/ TrStdNew
+        \/ TrTestTimer \/ TrClone \/ TrCloneFrom \/ TrSetPool \/ TrStir \/ TrSeek \/ TrDebug \/ TrDrop \/ TrStdNew
 Spec == Init /\ [][Next]_vars
 Accepted ==
   IF TLCGet("stats").diameter - 1 = Len(Rec) THEN TRUE
